@@ -8,8 +8,11 @@ import (
 )
 
 // ---- K-SOCK (SEQPACKET) contract model with ancillary data --------------------------------
-// The cmsg codecs of package syscall reinterpret []byte through unsafe; they are replaced by
-// a codec with the real sizes (CmsgSpace) and an own layout: byte 0 = kind, byte 1 = count.
+// Control messages travel in the real cmsg(3) byte layout (struct cmsghdr {u64 len; i32 level;
+// i32 type} + data, each message padded to 8 bytes): the codecs of package syscall
+// (UnixRights, UnixCredentials, ParseSocketControlMessage, ParseUnixRights,
+// ParseUnixCredentials) and any hand-written walk over the buffer run on the bytes the kernel
+// would produce.
 
 const (
 	kindRights = 1
@@ -44,67 +47,98 @@ type sockModel struct {
 	installed []int // descriptors the kernel installed for the last received packet
 	sendErr   bool
 	recvErr   bool
+	passCred  bool // SO_PASSCRED on the receiving end: credentials are delivered (the sender's own if none attached)
 }
 
 var M *sockModel
 
-func encRights(fds ...int) []byte {
-	b := make([]byte, cmsgSpace(4*len(fds)))
-	b[0] = kindRights
-	b[1] = byte(len(fds))
-	for i, fd := range fds {
-		if 2+i < len(b) {
-			b[2+i] = byte(fd)
-		}
-	}
+func le32(b []byte) uint32 {
+	return uint32(b[0]) | uint32(b[1])<<8 | uint32(b[2])<<16 | uint32(b[3])<<24
+}
+
+func le64(b []byte) uint64 { return uint64(le32(b)) | uint64(le32(b[4:]))<<32 }
+
+func put32(b []byte, v uint32) {
+	b[0], b[1], b[2], b[3] = byte(v), byte(v>>8), byte(v>>16), byte(v>>24)
+}
+
+// encCmsg lays out one control message as the kernel's put_cmsg does.
+func encCmsg(level, typ int32, data []byte) []byte {
+	b := make([]byte, cmsgSpace(len(data)))
+	put32(b[0:], uint32(16+len(data)))
+	put32(b[8:], uint32(level))
+	put32(b[12:], uint32(typ))
+	copy(b[16:], data)
 	return b
 }
 
-func encCred(c *syscall.Ucred) []byte {
-	b := make([]byte, cmsgSpace(12))
-	b[0] = kindCred
-	b[1] = byte(c.Pid)
-	b[2] = byte(c.Uid)
-	b[3] = byte(c.Gid)
-	return b
-}
-
-// writeMsg: the sender's side of sendmsg(2): the packet carries len(b) bytes and the control
-// messages found in oob; at most 253 rights per message (SCM_MAX_FD), else EINVAL.
+// writeMsg: the sender's side of sendmsg(2): the kernel walks the control buffer (CMSG_NXTHDR);
+// at most 253 rights per message (SCM_MAX_FD), malformed headers => EINVAL.
 func (m *sockModel) writeMsg(c *net.UnixConn, b, oob []byte, addr *net.UnixAddr) (int, int, error) {
 	if m.sendErr {
 		return 0, 0, syscall.EPIPE
 	}
 	p := &pkt{data: len(b)}
-	for off := 0; off < len(oob); {
-		switch oob[off] {
-		case kindRights:
-			n := int(oob[off+1])
+	for off := 0; off+16 <= len(oob); {
+		l := int(le64(oob[off:]))
+		level, typ := int32(le32(oob[off+8:])), int32(le32(oob[off+12:]))
+		if l < 16 || off+l > len(oob) {
+			return 0, 0, syscall.EINVAL
+		}
+		data := oob[off+16 : off+l]
+		switch {
+		case level == syscall.SOL_SOCKET && typ == syscall.SCM_RIGHTS:
+			n := len(data) / 4
 			if n > 253 {
 				return 0, 0, syscall.EINVAL
 			}
-			ct := ctl{kind: kindRights, level: syscall.SOL_SOCKET, typ: syscall.SCM_RIGHTS}
+			ct := ctl{kind: kindRights, level: level, typ: typ}
 			for i := 0; i < n; i++ {
-				ct.files = append(ct.files, 1000+int(oob[off+2+i])) // identity of the sender's open file
+				ct.files = append(ct.files, 1000+int(int32(le32(data[4*i:])))) // identity of the sender's open file
 			}
 			p.ctls = append(p.ctls, ct)
-			off += cmsgSpace(4 * n)
-		case kindCred:
-			p.ctls = append(p.ctls, ctl{kind: kindCred, level: syscall.SOL_SOCKET, typ: syscall.SCM_CREDENTIALS,
-				cred: syscall.Ucred{Pid: int32(oob[off+1]), Uid: uint32(oob[off+2]), Gid: uint32(oob[off+3])}})
-			off += cmsgSpace(12)
+		case level == syscall.SOL_SOCKET && typ == syscall.SCM_CREDENTIALS:
+			if len(data) != 12 {
+				return 0, 0, syscall.EINVAL
+			}
+			p.ctls = append(p.ctls, ctl{kind: kindCred, level: level, typ: typ,
+				cred: syscall.Ucred{Pid: int32(le32(data)), Uid: le32(data[4:]), Gid: le32(data[8:])}})
 		default:
 			sym.Assert(false, "sender produced an unknown control message")
 			return 0, 0, syscall.EINVAL
 		}
+		off += (l + 7) &^ 7
 	}
+	// delivery (unix_*_recvmsg -> scm_recv): credentials first, and only to a receiver with
+	// SO_PASSCRED (the sender's own when it attached none); then the rights
+	var ordered []ctl
+	haveCred := false
+	for _, ct := range p.ctls {
+		if ct.kind == kindCred && m.passCred {
+			ordered = append(ordered, ct)
+			haveCred = true
+		}
+	}
+	if m.passCred && !haveCred {
+		ordered = append(ordered, ctl{kind: kindCred, level: syscall.SOL_SOCKET, typ: syscall.SCM_CREDENTIALS, cred: kernelCred})
+	}
+	for _, ct := range p.ctls {
+		if ct.kind != kindCred {
+			ordered = append(ordered, ct)
+		}
+	}
+	p.ctls = ordered
 	m.inflight = p
 	return len(b), len(oob), nil
 }
 
-// readMsg: recvmsg(2) with MSG_CMSG_CLOEXEC: payload truncated to len(b) (MSG_TRUNC); control
-// messages are copied while they fit into oob (MSG_CTRUNC otherwise); every right that fits
-// is INSTALLED as a new descriptor of the receiver, also when a flag is raised.
+// what the kernel reports for a sender that attached no credentials
+var kernelCred = syscall.Ucred{Pid: 4242, Uid: 0, Gid: 0}
+
+// readMsg: recvmsg(2) with MSG_CMSG_CLOEXEC: payload truncated to len(b) (MSG_TRUNC); each
+// control message is put while room is left: a message that does not fit is copied truncated
+// (cmsg_len = the room left) and MSG_CTRUNC raised; for SCM_RIGHTS as many descriptors as fit
+// are INSTALLED in the receiver (also when a flag is raised), the rest are dropped by the kernel.
 func (m *sockModel) readMsg(c *net.UnixConn, b, oob []byte) (n, oobn, flags int, addr *net.UnixAddr, err error) {
 	if m.recvErr || m.inflight == nil {
 		return 0, 0, 0, nil, syscall.ECONNRESET
@@ -118,106 +152,63 @@ func (m *sockModel) readMsg(c *net.UnixConn, b, oob []byte) (n, oobn, flags int,
 	}
 	m.installed = nil
 	for _, ct := range p.ctls {
+		room := len(oob) - oobn
 		var enc []byte
 		switch ct.kind {
 		case kindRights:
-			space := cmsgSpace(4 * len(ct.files))
 			fit := len(ct.files)
-			if oobn+space > len(oob) {
-				flags |= syscall.MSG_CTRUNC
-				room := len(oob) - oobn - 16
-				if room < 4 {
-					fit = 0
-				} else {
-					fit = room / 4
-					if fit > len(ct.files) {
-						fit = len(ct.files)
-					}
-				}
-				if fit == 0 {
-					continue
-				}
+			if room < 16 {
+				fit = 0
+			} else if (room-16)/4 < fit {
+				fit = (room - 16) / 4
 			}
-			var fds []int
+			if fit < len(ct.files) {
+				flags |= syscall.MSG_CTRUNC
+			}
+			if fit == 0 {
+				continue
+			}
+			data := make([]byte, 4*fit)
 			for i := 0; i < fit; i++ {
 				m.recv.next++
 				fd := m.recv.next
 				m.recv.open[fd] = ct.files[i]
 				m.installed = append(m.installed, fd)
-				fds = append(fds, fd)
+				put32(data[4*i:], uint32(fd))
 			}
-			enc = encRights(fds...)
-			enc[1] = byte(len(fds))
+			enc = encCmsg(syscall.SOL_SOCKET, syscall.SCM_RIGHTS, data)
 		case kindCred:
-			if oobn+cmsgSpace(12) > len(oob) {
-				flags |= syscall.MSG_CTRUNC
-				continue
-			}
-			cc := ct.cred
-			enc = encCred(&cc)
+			data := make([]byte, 12)
+			put32(data[0:], uint32(ct.cred.Pid))
+			put32(data[4:], ct.cred.Uid)
+			put32(data[8:], ct.cred.Gid)
+			enc = encCmsg(syscall.SOL_SOCKET, syscall.SCM_CREDENTIALS, data)
 		case kindOther:
-			enc = make([]byte, cmsgSpace(4))
-			enc[0] = kindOther
+			enc = encCmsg(41, 7, make([]byte, 4))
+		}
+		if room < 16 {
+			flags |= syscall.MSG_CTRUNC
+			continue
+		}
+		if len(enc) > room {
+			// put_cmsg: truncated copy, cmsg_len = what is left (rights were already cut to fit above)
+			if int(le64(enc)) > room {
+				flags |= syscall.MSG_CTRUNC
+				put32(enc[0:], uint32(room))
+			}
+			enc = enc[:room]
 		}
 		copy(oob[oobn:], enc)
 		oobn += len(enc)
-		if oobn > len(oob) {
-			oobn = len(oob)
-		}
 	}
 	return n, oobn, flags, nil, nil
-}
-
-func parseCtl(b []byte) ([]syscall.SocketControlMessage, error) {
-	var msgs []syscall.SocketControlMessage
-	for off := 0; off < len(b); {
-		switch b[off] {
-		case kindRights:
-			n := int(b[off+1])
-			sp := cmsgSpace(4 * n)
-			if off+sp > len(b) {
-				return nil, syscall.EINVAL
-			}
-			msgs = append(msgs, syscall.SocketControlMessage{Header: syscall.Cmsghdr{Level: syscall.SOL_SOCKET, Type: syscall.SCM_RIGHTS, Len: uint64(16 + 4*n)}, Data: b[off : off+sp]})
-			off += sp
-		case kindCred:
-			msgs = append(msgs, syscall.SocketControlMessage{Header: syscall.Cmsghdr{Level: syscall.SOL_SOCKET, Type: syscall.SCM_CREDENTIALS, Len: 28}, Data: b[off : off+cmsgSpace(12)]})
-			off += cmsgSpace(12)
-		case kindOther:
-			msgs = append(msgs, syscall.SocketControlMessage{Header: syscall.Cmsghdr{Level: 41, Type: 7, Len: 20}, Data: b[off : off+cmsgSpace(4)]})
-			off += cmsgSpace(4)
-		default:
-			return nil, syscall.EINVAL
-		}
-	}
-	return msgs, nil
 }
 
 func installSockModel() *sockModel {
 	m := &sockModel{recv: fdtab{open: map[int]int{}, closes: map[int]int{}, next: 50}}
 	M = m
-	sym.Intercept("syscall.UnixRights", func(fds ...int) []byte { return encRights(fds...) })
-	sym.Intercept("syscall.UnixCredentials", func(c *syscall.Ucred) []byte { return encCred(c) })
 	sym.Intercept("(*net.UnixConn).WriteMsgUnix", m.writeMsg)
 	sym.Intercept("(*net.UnixConn).ReadMsgUnix", m.readMsg)
-	sym.Intercept("syscall.ParseSocketControlMessage", parseCtl)
-	sym.Intercept("syscall.ParseUnixRights", func(sm *syscall.SocketControlMessage) ([]int, error) {
-		if sm.Header.Type != syscall.SCM_RIGHTS {
-			return nil, syscall.EINVAL
-		}
-		n := int(sm.Data[1])
-		var fds []int
-		for i := 0; i < n; i++ {
-			fds = append(fds, int(sm.Data[2+i]))
-		}
-		return fds, nil
-	})
-	sym.Intercept("syscall.ParseUnixCredentials", func(sm *syscall.SocketControlMessage) (*syscall.Ucred, error) {
-		if sm.Header.Type != syscall.SCM_CREDENTIALS {
-			return nil, syscall.EINVAL
-		}
-		return &syscall.Ucred{Pid: int32(sm.Data[1]), Uid: uint32(sm.Data[2]), Gid: uint32(sm.Data[3])}, nil
-	})
 	sym.Intercept("syscall.Close", func(fd int) error {
 		m.recv.closes[fd]++
 		if _, ok := m.recv.open[fd]; !ok {
@@ -254,6 +245,7 @@ func VerifC19_RoundTrip() {
 		msg.Cred = &syscall.Ucred{Pid: 77, Uid: 3, Gid: 4}
 	}
 	m.sendErr = sym.Bool("send_fails")
+	m.passCred = sym.Bool("receiver_passcred")
 	err := snd.SendMsg(make([]byte, plen), msg)
 	if m.sendErr {
 		sym.Assert(err != nil, "a failing send must be reported")
@@ -279,8 +271,13 @@ func VerifC19_RoundTrip() {
 			sym.Assert(m.recv.open[got.Fds[i]] == 1000+fds[i], "descriptor i must refer to the sender's i-th open file")
 		}
 	}
-	if msg.Cred != nil {
+	switch {
+	case !m.passCred:
+		sym.Assert(got.Cred == nil, "credentials reported although the kernel delivered none")
+	case msg.Cred != nil:
 		sym.Assert(got.Cred != nil && *got.Cred == *msg.Cred, "credentials must arrive intact")
+	default:
+		sym.Assert(got.Cred != nil && *got.Cred == kernelCred, "the kernel-supplied credentials must be reported")
 	}
 	for _, fd := range m.installed {
 		sym.Assert(m.recv.closes[fd] == 0, "a delivered descriptor was closed")
